@@ -190,7 +190,9 @@ func defaultContentParameterDecoder(param *openapi3.Parameter, values []string) 
 		err = fmt.Errorf("parameter %q has no content schema", param.Name)
 		return
 	}
-	outSchema = mt.Schema.Value
+	if mt.Schema != nil {
+		outSchema = mt.Schema.Value
+	}
 
 	unmarshal := func(encoded string, paramSchema *openapi3.SchemaRef) (decoded any, err error) {
 		if err = json.Unmarshal([]byte(encoded), &decoded); err != nil {
@@ -210,7 +212,11 @@ func defaultContentParameterDecoder(param *openapi3.Parameter, values []string) 
 		outArray := make([]any, 0, len(values))
 		for _, v := range values {
 			var item any
-			if item, err = unmarshal(v, outSchema.Items); err != nil {
+			var itemSchema *openapi3.SchemaRef
+			if outSchema != nil {
+				itemSchema = outSchema.Items
+			}
+			if item, err = unmarshal(v, itemSchema); err != nil {
 				err = fmt.Errorf("error unmarshaling parameter %q", param.Name)
 				return
 			}
